@@ -16,6 +16,10 @@ def table(draw, idx, max_cols):
     # sizes are drawn so that large tables are regularly produced
     n = draw(st.one_of(st.integers(1, min(8, max_cols)), st.integers(1, max_cols)))
     names = draw(gen.distinct_names(n))
+    if draw(st.integers(0, 5)) == 0:
+        # Oracle / DB2 style names carrying '#' after their first character (emp#, part#no): an identifier character like any other
+        names = [(nm + "#" if k == 0 else nm[:1] + "#" + nm[1:]) if k < 2 and nm[:1].isalpha() else nm
+                 for nm, k in ((nm, draw(st.integers(0, 3))) for nm in names)]
     cols = []
     have_pk = False
     for nm in names:
@@ -83,6 +87,8 @@ class C01(Prop):
         if stats.get("K5K6_coerced"):
             out.label("K5K6_gap_coerced")
         out.label("tables=%d" % len(case["tables"]), "layout=%s" % ("drawn" if case["layout"] else "canonical"), "terminated=%s" % (not case.get("noterm")))
+        if any("#" in it["col"]["name"] for t in case["tables"] for it in t["items"]):
+            out.label("name-with-#")
         for t in case["tables"]:
             n = len(t["items"])
             out.label("cols=%s" % (n if n <= 8 else "9-20" if n <= 20 else "21+"))
